@@ -266,6 +266,9 @@ fn edit_table(rng: &mut Rng, table: &mut Vec<IfSpec>) -> &'static str {
 pub struct Checkpoint {
     pub t: u64,
     pub idx: usize,
+    /// Trace length once the checkpoint's browse had been carried out: later entries belong to later operations
+    /// (which may happen at the very same virtual instant).
+    pub idx_end: usize,
     pub after: String,
     pub ty: String,
     pub model_entries: BTreeSet<AddrEntry>,
@@ -360,6 +363,7 @@ pub fn scenario_s(seed: u64) -> MadeS {
         checkpoints.push(Checkpoint {
             t: w.now(),
             idx,
+            idx_end: w.trace.entries.len(),
             after,
             ty,
             model_entries: model.enabled_entries(&table),
@@ -439,7 +443,7 @@ pub fn monitor_s(made: &MadeS, l: &mut Local) {
         let ty = scen::wire_name(&c.ty);
         let sent: BTreeSet<(u32, bool)> = txs
             .iter()
-            .filter(|tx| tx.idx > c.idx && tx.t == c.t && tx.msg.is_query() && scen::has_question(tx.msg, &ty, wire::T_PTR))
+            .filter(|tx| tx.idx > c.idx && tx.idx < c.idx_end && tx.t == c.t && tx.msg.is_query() && scen::has_question(tx.msg, &ty, wire::T_PTR))
             .filter_map(|tx| tx.out_if.map(|i| (i, tx.v4)))
             .collect();
         if sent != c.model_links {
